@@ -37,6 +37,7 @@ from .values import (
     CallbackVal,
     DObj,
     ElemRef,
+    ExtObj,
     Func,
     IntSeq,
     LObj,
@@ -421,6 +422,8 @@ def subscript(ex, o, i):
             return dict_getitem(ex, o, ho, i)
         if isinstance(ho, MObj):
             return map_getitem(ex, o, ho, i)
+        if isinstance(ho, ExtObj):
+            return ho.ext_subscript(ex, o, i)
         if isinstance(ho, Obj):
             return obj_special(ex, o, '__getitem__', [i])
     if isinstance(o, (bytes, bytearray)) and isinstance(i, int):
@@ -1297,7 +1300,15 @@ def _int_binop(ex, op, a, b):
         return r
     if t is ast.RShift:
         if cb is None:
-            raise Unsupported('shift by symbolic amount')
+            # symbolic amount: exact for 0 <= amount < 64 (case distinction over divisions by constants)
+            if not ex.branch(mk_bool(y >= 0)):
+                ex.raise_(ValueError, 'negative shift count')
+            if not ex.branch(mk_bool(y < 64)):
+                raise Unsupported('right shift by a symbolic amount that may be >= 64')
+            r = x / (1 << 63)
+            for k in range(62, -1, -1):
+                r = z3.If(y == k, x / (1 << k), r)
+            return mk_int(r)
         if cb < 0:
             ex.raise_(ValueError, 'negative shift count')
         return mk_int(x / (1 << cb))
